@@ -83,7 +83,7 @@ func runC07(c *vkit.Ctx, lab *Lab, r *rand.Rand, i int) {
 		return
 	}
 	own := BuildOwned(rec)
-	lab.Seed(r, own, LabOpts{Stale: true, Shuffle: true, Hostile: true})
+	sd := lab.Seed(r, own, LabOpts{Stale: true, Shuffle: true, Hostile: true, TornTail: true})
 	res := lab.P.RunChild(RunOpt{PkgDir: lab.PkgDir, Scenario: lc.Scenario, Run: lc.Run, Count: lc.Count, Update: lc.Update})
 	in := labSample(lc)
 	if !res.Complete {
@@ -93,6 +93,7 @@ func runC07(c *vkit.Ctx, lab *Lab, r *rand.Rand, i int) {
 	a := Analyze(res, lab.Src)
 	c.Count("processes", 3)
 	c.Count("addressed_calls", len(a.Calls))
+	allowed := lab.AllowedListings(res, a)
 	files := map[string]bool{}
 	twoCalls := false
 	standalone := false
@@ -128,7 +129,7 @@ func runC07(c *vkit.Ctx, lab *Lab, r *rand.Rand, i int) {
 		seen[key] = true
 		pre, _ := lab.preEntries(res, cr.Path)
 		post, torn := vkit.ReadSnapFile(cr.Path)
-		if len(torn) > 0 {
+		if len(torn) > 0 && !sd.Torn[cr.Path] {
 			c.Violate("file-torn-after-clean", nonTestIDClass(id), strings.Join(torn, "; "), in)
 			return
 		}
@@ -145,8 +146,8 @@ func runC07(c *vkit.Ctx, lab *Lab, r *rand.Rand, i int) {
 			c.Violate("clean-altered-addressed-entry", nonTestIDClass(id), fmt.Sprintf("[%s]: %s -> %s", id, vkit.Q(pre[pi[0]].Body), vkit.Q(post[qi[0]].Body)), in)
 			return
 		}
-		if res.Summary != nil && inList(res.Summary.Tests, id) {
-			c.Violate("addressed-entry-listed-obsolete", nonTestIDClass(id), fmt.Sprintf("[%s] listed although addressed (-count=%d)", id, lc.Count), in)
+		if res.Summary != nil && countOf(res.Summary.Tests, id) > allowed[id] {
+			c.Violate("addressed-entry-listed-obsolete", nonTestIDClass(id), fmt.Sprintf("[%s] is listed %d time(s) although it was addressed (-count=%d); only %d unaddressed entries carry that id", id, countOf(res.Summary.Tests, id), lc.Count, allowed[id]), in)
 			return
 		}
 		if res.Summary != nil && inList(res.Summary.Files, cr.Path) {
@@ -172,6 +173,9 @@ func runC07(c *vkit.Ctx, lab *Lab, r *rand.Rand, i int) {
 			}
 			c.Count("followup_checks", 1)
 		}
+	}
+	if len(sd.Torn) > 0 {
+		lc.Classes["file-with-unterminated-tail-entry"] = true
 	}
 	for k := range lc.Classes {
 		c.Count("class:"+k, 1)
